@@ -124,6 +124,77 @@ pub fn check_main(a: CheckArgs) -> i32 {
         }
     };
 
+    // ---- stratum 1: the solo table, each task computed in REPLICAS different child processes
+    // (different hash keys), merged here and handed to all children
+    let mut harness_errors: Vec<String> = vec![];
+    let mut per_key: BTreeMap<String, BTreeSet<String>> = BTreeMap::new();
+    let mut parse_failures: BTreeSet<String> = BTreeSet::new();
+    let mut solo_ms = 0u64;
+    let mut modules = 0u64;
+    let mut tasks_n = 0u64;
+    let mut solo_evals = 0u64;
+    let table_path = format!("{tmp_dir}/solo-table.json");
+    {
+        let mut slices = vec![];
+        for i in 0..a.children {
+            let out = format!("{tmp_dir}/slice-{i}.jsonl");
+            let c = Command::new(&exe)
+                .arg("solo-slice")
+                .arg("--seed").arg(a.seed.to_string())
+                .arg("--index").arg(i.to_string())
+                .arg("--of").arg(a.children.to_string())
+                .arg("--workload").arg(format!("{}/workload", a.verif_dir))
+                .arg("--out").arg(&out)
+                .arg("--run-timeout").arg(a.run_timeout_s.to_string())
+                .stdout(Stdio::piped())
+                .stderr(Stdio::null())
+                .spawn()
+                .expect("spawn solo-slice");
+            slices.push((c, out));
+        }
+        let mut table: Vec<Value> = vec![];
+        for (i, (c, out)) in slices.into_iter().enumerate() {
+            let o = c.wait_with_output().expect("wait solo-slice");
+            let summary = String::from_utf8_lossy(&o.stdout).lines().filter_map(|l| serde_json::from_str::<Value>(l).ok()).find(|v| v.get("slice_done").is_some());
+            let Some(summary) = summary else {
+                harness_errors.push(format!("solo-slice {i} did not finish ({})", o.status));
+                continue;
+            };
+            let sd = &summary["slice_done"];
+            solo_ms = solo_ms.max(sd["ms"].as_u64().unwrap_or(0));
+            modules = sd["modules"].as_u64().unwrap_or(0);
+            tasks_n = sd["tasks"].as_u64().unwrap_or(0);
+            solo_evals += sd["computed"].as_u64().unwrap_or(0);
+            if table.len() < tasks_n as usize {
+                table.resize(tasks_n as usize, Value::Null);
+            }
+            for l in std::fs::read_to_string(&out).unwrap_or_default().lines() {
+                let Ok(v) = serde_json::from_str::<Value>(l) else { continue };
+                per_key.entry(v["key"].as_str().unwrap_or("").to_string()).or_default().insert(v["hash"].as_str().unwrap_or("").to_string());
+                if !v["solo"].is_null() {
+                    if let Some(m) = v["solo"]["outcome"].get("ParseFail").and_then(|m| m.as_str()) {
+                        parse_failures.insert(format!("{}: {}", v["key"].as_str().unwrap_or(""), m));
+                    }
+                    let idx = v["idx"].as_u64().unwrap_or(0) as usize;
+                    if idx < table.len() {
+                        table[idx] = v["solo"].clone();
+                    }
+                }
+            }
+            let _ = std::fs::remove_file(&out);
+        }
+        if table.is_empty() || table.iter().any(|v| v.is_null()) {
+            harness_errors.push("the solo table is incomplete".into());
+            for e in &harness_errors {
+                println!("HARNESS-ERROR: {e}");
+            }
+            return 2;
+        }
+        std::fs::write(&table_path, serde_json::to_string(&table).unwrap()).expect("write solo table");
+    }
+    let replicas = per_key.values().map(|v| v.len()).max().unwrap_or(0);
+    let _ = replicas;
+
     let (tx, rx) = mpsc::channel::<Msg>();
     let mut procs = vec![];
     for i in 0..a.children as usize {
@@ -139,6 +210,7 @@ pub fn check_main(a: CheckArgs) -> i32 {
             .arg("--audit-every").arg(a.audit_every.to_string())
             .arg("--strata").arg(a.strata.join(","))
             .arg("--run-timeout").arg(a.run_timeout_s.to_string())
+            .arg("--solo-table").arg(&table_path)
             .stdout(Stdio::piped())
             .stderr(Stdio::piped());
         let mut child = cmd.spawn().expect("spawn child");
@@ -174,10 +246,8 @@ pub fn check_main(a: CheckArgs) -> i32 {
     let mut last_progress: Vec<(String, u64, Instant)> = (0..n).map(|_| ("start".to_string(), 0, Instant::now())).collect();
     let mut done: Vec<Option<Value>> = vec![None; n];
     let mut eof = vec![false; n];
-    let mut solo_tables: Vec<Option<Value>> = vec![None; n];
     let mut world: Option<Value> = None;
     let mut viols: Vec<Viol> = vec![];
-    let mut harness_errors: Vec<String> = vec![];
     let mut dead: Vec<(usize, String, u64, String)> = vec![];
 
     while eof.iter().any(|e| !*e) {
@@ -186,9 +256,6 @@ pub fn check_main(a: CheckArgs) -> i32 {
                 let Ok(v) = serde_json::from_str::<Value>(&l) else { continue };
                 if let Some(s) = v.get("s").and_then(|s| s.as_str()) {
                     last_progress[i] = (s.to_string(), v["run"].as_u64().unwrap_or(0), Instant::now());
-                } else if v.get("solo_table").is_some() {
-                    solo_tables[i] = Some(v["solo_table"].clone());
-                    last_progress[i].2 = Instant::now();
                 } else if v.get("world").is_some() {
                     world = Some(v["world"].clone());
                 } else if let Some(x) = v.get("violation") {
@@ -272,26 +339,8 @@ pub fn check_main(a: CheckArgs) -> i32 {
         });
     }
 
-    // ---- "fresh process" clause: the solo tables of all children (different hash keys) must agree
-    let mut table_sizes = BTreeSet::new();
-    let mut per_key: BTreeMap<String, BTreeSet<String>> = BTreeMap::new();
-    let mut parse_failures: BTreeSet<String> = BTreeSet::new();
-    let mut solo_ms = 0u64;
-    let mut modules = 0u64;
-    let mut tasks_n = 0u64;
-    for t in solo_tables.iter().flatten() {
-        table_sizes.insert(t["tasks"].as_u64().unwrap_or(0));
-        solo_ms = solo_ms.max(t["ms"].as_u64().unwrap_or(0));
-        modules = t["modules"].as_u64().unwrap_or(0);
-        tasks_n = t["tasks"].as_u64().unwrap_or(0);
-        for h in t["hashes"].as_array().cloned().unwrap_or_default() {
-            per_key.entry(h[0].as_str().unwrap_or("").to_string()).or_default().insert(h[1].as_str().unwrap_or("").to_string());
-        }
-        for p in t["parse_failures"].as_array().cloned().unwrap_or_default() {
-            parse_failures.insert(p.as_str().unwrap_or("").to_string());
-        }
-    }
-    let solo_tables_n = solo_tables.iter().flatten().count();
+    // ---- "fresh process" clause: the solo results of every task from REPLICAS processes (different hash keys) must agree
+    let solo_tables_n = crate::child::REPLICAS.min(a.children) as usize;
     let unstable: Vec<&String> = per_key.iter().filter(|(_, v)| v.len() > 1).map(|(k, _)| k).collect();
     {
         let mut seen_mod = BTreeSet::new();
@@ -418,7 +467,7 @@ pub fn check_main(a: CheckArgs) -> i32 {
     // a listed known finding that no longer shows up is not an error; it is just not printed
 
     let wall = t0.elapsed().as_secs_f64();
-    let total_runs: u64 = runs.values().sum::<u64>() + tasks_n * solo_tables_n as u64;
+    let total_runs: u64 = runs.values().sum::<u64>() + solo_evals;
     let sim_runs: u64 = runs.values().sum();
 
     // ---- evidence
@@ -431,10 +480,10 @@ pub fn check_main(a: CheckArgs) -> i32 {
             "coverage": {
                 "evaluations": total_runs,
                 "distinct_nontrivial": fp_nontrivial.len(),
-                "rule": "An evaluation is one simulated execution: a list of whole-file compilations (parse > resolver > VueJsxTransformVisitor > codegen) run on 1-4 worker OS threads that are released one at a time by a seeded scheduler, with faults and environment noise, every non-faulted task compared byte-for-byte (code, binding signature, diagnostics) with the same task run alone; plus one evaluation per solo run of a workload task in each child process (different hash keys per process). Executions come from four strata: solo table x processes; systematic single-crash sweep [t crashed at step k; t; u]; systematic single-preemption sweep (A parked at step k, B runs to completion, A resumes); seeded random/PCT search. Two executions are the same interleaving when they have the same task list and the same sequence of (task, task-local step, site) at which control changed hands plus the same faults fired; distinct_nontrivial counts distinct interleavings among executions with at least one switch away from a still-running task or at least one fault fired. The workload is fixed (repository fixtures + /verif/workload); the search is over schedules and faults, not programs.",
+                "rule": "An evaluation is one simulated execution: a list of whole-file compilations (parse > resolver > VueJsxTransformVisitor > codegen) run on 1-4 worker OS threads that are released one at a time by a seeded scheduler, with faults and environment noise, every non-faulted task compared byte-for-byte (code, binding signature, diagnostics) with the same task run alone; plus one evaluation per solo run of a workload task (each task is run alone in 3 different child processes with different hash keys, each time in its own forked process). Executions come from four strata: solo table x processes; systematic single-crash sweep [t crashed at step k; t; u]; systematic single-preemption sweep (A parked at step k, B runs to completion, A resumes); seeded random/PCT search. Two executions are the same interleaving when they have the same task list and the same sequence of (task, task-local step, site) at which control changed hands plus the same faults fired; distinct_nontrivial counts distinct interleavings among executions with at least one switch away from a still-running task or at least one fault fired. The workload is fixed (repository fixtures + /verif/workload); the search is over schedules and faults, not programs.",
                 "samples": samples,
                 "strata_runs": runs,
-                "solo": {"modules": modules, "tasks": tasks_n, "processes": solo_tables_n, "tasks_with_process_dependent_result": unstable.len(), "table_ms_max": solo_ms},
+                "solo": {"modules": modules, "tasks": tasks_n, "processes_per_task": solo_tables_n, "solo_executions": solo_evals, "tasks_with_process_dependent_result": unstable.len(), "table_ms_max": solo_ms},
                 "world": world,
                 "simulated_runs": sim_runs,
                 "nontrivial_runs": nontrivial_runs,
